@@ -489,7 +489,7 @@ fn name_strategy() -> BoxedStrategy<Vec<u8>> {
 }
 
 fn strategy(tier: Tier) -> BoxedStrategy<Case> {
-    let big = tier.pick(300usize, 5000usize);
+    let big = tier.pick(300usize, 2000usize);
     let names = prop_oneof![
         8 => proptest::collection::vec((name_strategy(), 0u8..4).prop_map(|(name, kind)| NameK { name, kind }), 0..41),
         1 => proptest::collection::vec((name_strategy(), 0u8..4).prop_map(|(name, kind)| NameK { name, kind }), 100..101),
@@ -530,7 +530,7 @@ impl Prop for C16 {
     }
     fn worker(&self, w: &WorkerCtx) -> WorkerResult {
         sys::enter();
-        let n = w.share(w.tier.pick(6_000, 200_000));
+        let n = w.share(w.tier.pick(6_000, 60_000));
         set_max_shrink_iters(400);
         drive(w, "C16", "plan", n, strategy(w.tier), run)
     }
